@@ -155,6 +155,24 @@ func c11Receivers(quick bool) []c11Recv {
 			out = append(out, c11Recv{fmt.Sprintf("%s/spy/mode%d", k, mode), func() any { return spyReceiver(k, mode) }})
 		}
 	}
+	// capacity exactly reached, and one short of it (queries about room must not leave a trace either)
+	for _, k := range []string{"LIST", "AND"} {
+		for mode := 0; mode < 4; mode++ {
+			for _, spare := range []int{0, 1} {
+				k, mode, spare := k, mode, spare
+				out = append(out, c11Recv{fmt.Sprintf("%s/full-%d/mode%d", k, spare, mode), func() any {
+					s := newStackKind(k, 3+spare).Push("a", nil, stackage.Or(1).Push("inner-full"))
+					if mode&1 != 0 {
+						s.SetMutex()
+					}
+					if mode&2 != 0 {
+						s.SetReadOnly(true)
+					}
+					return s
+				}})
+			}
+		}
+	}
 	// closures that are scheduling points (see schedUserPoint): under the controlled scheduler other
 	// threads run while one caller is inside user code in the middle of a query
 	for _, k := range []string{"AND", "LIST"} {
@@ -539,6 +557,46 @@ func contentText(res []reflect.Value) string {
 	return strings.Join(p, " | ")
 }
 
+// c11Repeat calls every argument-free query 6000 times in a row on a few richly configured receivers
+// (closures, presentation policy, nesting, mutex) and requires the first answer every time.
+func c11Repeat(c *Ctx, recvs []c11Recv) {
+	const reps = 6000
+	for _, rv := range recvs {
+		if !strings.Contains(rv.Name, "/closures/") && !strings.HasSuffix(rv.Name, "content2/mode1/cfg1") && !strings.HasPrefix(rv.Name, "Condition/stack/mode0") {
+			continue
+		}
+		x := rv.Mk()
+		pv := reflect.New(reflect.TypeOf(x))
+		pv.Elem().Set(reflect.ValueOf(x))
+		before := dumpKey(x)
+		for _, cl := range c11Calls(x) {
+			if len(cl.args) != 0 {
+				continue
+			}
+			var first string
+			p := noPanic(func() {
+				m := pv.MethodByName(cl.Method)
+				for i := 0; i < reps; i++ {
+					got := contentText(m.Call(nil))
+					if i == 0 {
+						first = got
+					} else if got != first {
+						c.Violation("answer-changes-when-repeated:"+cl.Method, fmt.Sprintf("%s.%s(): call #%d answers %q, the first call answered %q", rv.Name, cl.Method, i+1, got, first), c11Case{rv.Name, cl.Method, ""}, i)
+						return
+					}
+				}
+			})
+			c.Transitions.Add(reps)
+			if p != "" {
+				c.Violation("panic:"+cl.Method, fmt.Sprintf("%s.%s() repeated: %s", rv.Name, cl.Method, p), c11Case{rv.Name, cl.Method, ""}, 0)
+			}
+		}
+		if after := dumpKey(x); after != before {
+			c.Violation("query-modifies:repeated", fmt.Sprintf("%s changed after %d repetitions of every argument-free query:\n before %s\n after  %s", rv.Name, reps, before, after), nil, 0)
+		}
+	}
+}
+
 const c11EnvTag = " [package default loggers replaced after construction]"
 
 // a logger that is live as far as the library can tell (its writer is not io.Discard) and swallows everything
@@ -565,6 +623,9 @@ func init() {
 		// (1)-(4): purity, stable answers, returned containers, no lock on the read path
 		// receivers are built first (construction itself takes locks: SetMutex + Push); the hook that
 		// turns any lock event into a failure of the running query is installed afterwards
+		// "the same answer when repeated" - many times, not twice: first thing in a fresh process, so that
+		// nothing that accumulates per call (in the instance or in the package) has had a chance to build up
+		c11Repeat(c, recvs)
 		for _, env := range []string{"", c11EnvTag} {
 			stackage.VerifHook = nil
 			built := make([]any, len(recvs))
@@ -620,7 +681,7 @@ func init() {
 		c.Bound["receivers"] = len(recvs)
 		c.Bound["query_methods"] = nq
 		c.Bound["schedules_executed"] = execs
-		c.Rule = "every exported Stack/Condition method found by reflection that is not in the declared mutator list (queries) x argument tuples x receivers (5 kinds x 3 contents x {plain, mutex, read-only, both} x {default, fully configured}; Conditions), in the initial package state and again with the package default loggers replaced after the receivers were built: raw recursive dump identical before/after, same answer twice, altering returned slices changes nothing, no lock event (hook panics the call if the read path reaches lock()); plus every schedule of three threads issuing queries on one shared mutex-enabled structure under the cooperative scheduler (answers equal the isolated ones; the harness's own policy closures and Stringer leaves are scheduling points, so callers overlap in the middle of a query); plus a free-running -race pass with 16 goroutines (coverage.race_pass; any report is a violation). non-trivial = distinct (receiver, query, arguments)"
+		c.Rule = "every exported Stack/Condition method found by reflection that is not in the declared mutator list (queries) x argument tuples x receivers (5 kinds x 3 contents x {plain, mutex, read-only, both} x {default, fully configured}; Conditions), in the initial package state and again with the package default loggers replaced after the receivers were built: raw recursive dump identical before/after, same answer twice (and, first thing in the process, every argument-free query 6000 times in a row on the receivers with closures), altering returned slices changes nothing, no lock event (hook panics the call if the read path reaches lock()); plus every schedule of three threads issuing queries on one shared mutex-enabled structure under the cooperative scheduler (answers equal the isolated ones; the harness's own policy closures and Stringer leaves are scheduling points, so callers overlap in the middle of a query); plus a free-running -race pass with 16 goroutines (coverage.race_pass; any report is a violation). non-trivial = distinct (receiver, query, arguments)"
 		if nq < 30 {
 			c.Violation("vacuous", fmt.Sprintf("only %d query methods were found by reflection", nq), nil, 0)
 		}
